@@ -40,6 +40,11 @@ def candidates():
                 se = rng.choice([-40, -31, -20, -8, 0])
                 d_ = "%s s<%s,%d> -> s<%s,%d> convert" % (m[1], sn, se, dn, se + shift)
                 out.setdefault(d_, ("conv", "c08::rconv<c08::%s,%s,%d,%s,%d,0>" % (m[0], sc, se, dc, se + shift)))
+    # the convert<> entry point on scaled_integer<rounding_integer<Rep,Tag>> operands (route 2)
+    for s, d, se, de in [(INTS[2], INTS[0], -4, -1), (INTS[4], INTS[4], -8, -3), (INTS[6], INTS[4], -20, -2), (INTS[0], INTS[0], -3, 0), (INTS[5], INTS[3], -8, -1), (INTS[4], INTS[6], 0, 5), (INTS[3], INTS[3], -6, -2)]:
+        for m in MODES:
+            d_ = "%s s<%s,%d> -> s<%s,%d> convert-wrapped" % (m[1], s[1], se, d[1], de)
+            out.setdefault(d_, ("conv", "c08::rconv<c08::%s,%s,%d,%s,%d,2>" % (m[0], s[0], se, d[0], de)))
     # decimal scaling: scaled -> coarser scaled (both routes) and floating -> scaled
     for s, d, se, de in [(INTS[4], INTS[4], -1, 0), (INTS[4], INTS[2], -3, -1), (INTS[6], INTS[4], -2, 1), (INTS[2], INTS[2], -4, -2), (INTS[5], INTS[5], -2, 0), (INTS[6], INTS[6], -9, -3),
                          (INTS[0], INTS[4], -2, -1), (INTS[7], INTS[5], -4, 2), (INTS[3], INTS[1], -3, -1), (INTS[4], INTS[6], 0, 3)]:
@@ -75,6 +80,8 @@ def load():
 def critical(k):
     """kernels that every quick run contains: parameters sitting on a representation boundary of the operation itself"""
     d = k["desc"].split()
+    if k["desc"].endswith("convert-wrapped"):
+        return sum(map(ord, k["desc"])) % 2 == 0
     if ",r10>" in k["desc"]:
         # decimal scaling: one kernel in three (fixed selection), all of them in thorough
         return sum(map(ord, k["desc"])) % 3 == 0
